@@ -127,6 +127,15 @@ def template(src, flags):
     proof fn law_like(a: &Self, b: &%s) { %s }
 }''' % (gen, tyB, tyA, tyB, ' && '.join('%s::corr(&a.%d, &b.%d)' % (As[i], i, i) for i in range(k)), tyB,
                 ' '.join('%s::law_like(&a.%d, &b.%d);' % (As[i], i, i) for i in range(k)))
+        # bytes::Bytes against byte slices / vectors (the Encode forwarders of Bytes are under contract: wrapper_bytes)
+        mb = re.match(r'impl EncodeLike<(&\[u8\]|Vec<u8>|Bytes)>for ?(Bytes|&\[u8\]|Vec<u8>)$', h)
+        if mb and 'Bytes' in (mb.group(1), mb.group(2)) and mb.group(1) != mb.group(2):
+            ty = {'&[u8]': "&'a [u8]", 'Vec<u8>': 'Vec<u8>', 'Bytes': 'bytes::Bytes'}
+            B, A = ty[mb.group(1)], ty[mb.group(2)]
+            body = '''impl<'a> EncodeLikeSpec<%s> for %s {
+    open spec fn corr(a: &Self, b: &%s) -> bool { a@ == b@ }
+    proof fn law_like(a: &Self, b: &%s) {}
+}''' % (B, A, B, B)
         if body is None:
             if re.search(r'BTreeMap|BTreeSet|LinkedList|BinaryHeap|Bytes|String|&str|Cow|Ref<', h):
                 report.append((h, 'not decided', 'Encode impl of this family is not under a Verus contract (std collection iteration / str / bytes / Cow / Ref)'))
